@@ -163,6 +163,9 @@ class SimManager:
 # ----------------------------------------------------------------------------------------------
 def payload(kind, i):
     import torch
+    if kind == "falsy":
+        # legal picklable samples that are falsy or None: a cache must not mistake them for "not cached"
+        return [None, 0, "", (), False, 0.0, b""][i % 7]
     if kind == "int":
         return 1000 + i
     if kind == "tuple":
@@ -238,7 +241,7 @@ def expected_value(kind, tf_mode, i, offset=0):
         LOG[:] = saved[1]
 
 
-KINDS = ["int", "tuple", "dict", "list", "bytes", "tensor", "mixed"]
+KINDS = ["int", "tuple", "dict", "list", "bytes", "tensor", "mixed", "falsy"]
 
 
 class Spec(core.PropSpec):
@@ -267,7 +270,10 @@ class Spec(core.PropSpec):
         for r in range(R):
             ops = []
             for _ in range(ro.randint(1, 14 if big else 8)):
-                if ro.random() < 0.2:
+                r_ = ro.random()
+                if r_ < 0.08:
+                    ops.append(["drop_copy", ro.choice(["pickle", "copy"])])
+                elif r_ < 0.26:
                     ops.append(["dispose"])
                 else:
                     i = ro.randrange(n)
@@ -362,7 +368,16 @@ class Spec(core.PropSpec):
                         LOG.append(["inv", f"r{r}", k] + op)
                         _yield("invoke")
                         try:
-                            if op[0] == "retune":
+                            if op[0] == "drop_copy":
+                                # a second handle on the same cache (a copy sent to a short-lived helper, a task argument ...)
+                                # is created and finalised: that is not a clear
+                                import gc
+                                tmp = pickle.loads(pickle.dumps(views[r])) if op[1] == "pickle" else copy.copy(views[r])
+                                del tmp
+                                gc.collect(0)  # young generation only: a full collection costs ~50 ms with torch loaded
+                                results[(r, k)] = ("ok", None)
+                                LOG.append(["ret", f"r{r}", k, None])
+                            elif op[0] == "retune":
                                 views[r].transform.scale_strength(op[1] / 100)
                                 offsets[r] = op[1]
                                 results[(r, k)] = ("ok", None)
@@ -460,7 +475,7 @@ class Spec(core.PropSpec):
         for pos, e in enumerate(hist):
             if e[0] == "inv":
                 a = dict(reader=e[1], k=e[2], op=e[3], idx=e[4] if e[3] == "get" else None, inv=pos, ret=None, loads=[], tfs=0, exc=None)
-                if e[3] == "retune":
+                if e[3] in ("retune", "drop_copy"):
                     a["op"] = "retune"
                 acc[(e[1], e[2])] = a
                 cur[e[1]] = a
